@@ -40,6 +40,10 @@ thread_local! {
     /// every 4th history concentrates on what the actor hands to the store without asking for an open document:
     /// download policies, news detection, the protected hash list - between remote inserts, drops and re-creations
     static META_FOCUS: std::cell::Cell<bool> = const { std::cell::Cell::new(false) };
+    /// every 4th history (the ones whose second document starts read-only) concentrates on the capability as the actor
+    /// sees it: opens and closes down to the last handle, imports of either kind while the document is open or closed,
+    /// write attempts and secret exports in between
+    static CAP_FOCUS: std::cell::Cell<bool> = const { std::cell::Cell::new(false) };
 }
 
 fn gen_policy(r: &mut Rng) -> Value {
@@ -116,6 +120,42 @@ pub fn gen_batches(r: &mut Rng, len: usize) -> Vec<Value> {
             }
             if x >= 100 {
                 x = 99;
+            }
+            if CAP_FOCUS.with(|c| c.get()) && r.chance(2, 3) {
+                let d = if r.chance(3, 4) { 2 } else { d };
+                let y = r.below(100);
+                let mut q = if y < 22 {
+                    let mut q = req("Open", d);
+                    q["sync"] = json!(r.chance(1, 3));
+                    q
+                } else if y < 47 {
+                    req("Close", d)
+                } else if y < 59 {
+                    let mut q = req("Import", d);
+                    q["kind"] = json!("write");
+                    q
+                } else if y < 66 {
+                    let mut q = req("Import", d);
+                    q["kind"] = json!("read");
+                    q
+                } else if y < 82 {
+                    let mut q = req("InsertLocal", d);
+                    q["e"] = json!({"a":1 + r.below(2),"k":key_json(KEYS[r.below(5)]),"ts":now,"h":*r.pick(&[-1i64,1,2]),"len":1});
+                    q
+                } else if y < 87 {
+                    let mut q = req("DeletePrefix", d);
+                    q["e"] = json!({"a":1 + r.below(2),"k":key_json(KEYS[r.below(5)]),"ts":now,"h":0,"len":0});
+                    q
+                } else if y < 95 {
+                    req("ExportSecret", d)
+                } else if y < 98 {
+                    req("GetState", d)
+                } else {
+                    req("Drop", d)
+                };
+                q["now"] = json!(now);
+                reqs.push(q);
+                continue;
             }
             if META_FOCUS.with(|c| c.get()) && r.chance(1, 2) {
                 let y = r.below(100);
@@ -473,9 +513,11 @@ pub fn run(w: Arc<World>, seed: u64, rng: &mut Rng, schedules: Vec<Value>, n: us
     for i in 0..n {
         PEER_FOCUS.with(|c| c.set(i % 4 == 3));
         META_FOCUS.with(|c| c.set(i % 4 == 1));
+        CAP_FOCUS.with(|c| c.set(i % 8 == 2));
         runs.push((gen_batches(rng, if i % 3 == 0 { 10 } else { 40 }), i % 3 == 1));
         PEER_FOCUS.with(|c| c.set(false));
         META_FOCUS.with(|c| c.set(false));
+        CAP_FOCUS.with(|c| c.set(false));
     }
     for (i, (batches, file)) in runs.iter().enumerate() {
         let path = dir.join(format!("actor-{i}.redb"));
